@@ -318,6 +318,44 @@ func toValidUTF8(b []byte) string {
 	return string(out)
 }
 
+// injectUnknown puts fields the descriptor does not declare (ids 20000..) into the structs of v: first, in the middle
+// or last, scalars and containers
+func injectUnknown(r *rand.Rand, v *Val) {
+	switch v.T {
+	case tSTRUCT:
+		for _, f := range v.F {
+			injectUnknown(r, f.V)
+		}
+		for n := r.Intn(3); n > 0 || len(v.F) == 0 && r.Intn(2) == 0; n-- {
+			kind := []byte{tI32, tSTR, tSTRUCT, tLIST, tMAP, tDBL, tBOOL}[r.Intn(7)]
+			f := Field{uint16(20000 + r.Intn(1000)), randVal(r, kind, 0, &genCfg{maxDepth: 2, maxElems: 2, maxStr: 8})}
+			dup := false
+			for _, g := range v.F {
+				dup = dup || g.ID == f.ID
+			}
+			if dup {
+				continue
+			}
+			at := r.Intn(len(v.F) + 1)
+			if r.Intn(3) == 0 {
+				at = 0
+			}
+			v.F = append(v.F[:at], append([]Field{f}, v.F[at:]...)...)
+			if n <= 0 {
+				break
+			}
+		}
+	case tLIST, tSET:
+		for _, e := range v.E {
+			injectUnknown(r, e)
+		}
+	case tMAP:
+		for _, p := range v.P {
+			injectUnknown(r, p.V)
+		}
+	}
+}
+
 func (c *c03) genRandom(seed int64, base, n int) {
 	for i := 0; i < n; i++ {
 		if base+i < startAt {
@@ -332,8 +370,8 @@ func (c *c03) genRandom(seed int64, base, n int) {
 		c.setDesc(d, popts)
 		for k := 0; k < 6; k++ {
 			v := convConforming(r, d.From, d, 0, c.prop == "c16", false)
-			if r.Intn(4) == 0 { // unknown field
-				v.F = append(v.F, Field{uint16(20000 + r.Intn(100)), randScalar(r, tI32, &genCfg{})})
+			if r.Intn(3) == 0 { // unknown fields: at any position of any struct of the value, of any type
+				injectUnknown(r, v)
 			}
 			o := T2JOpts{I2s: r.Intn(2) == 0, U8: r.Intn(2) == 0, Nob64: r.Intn(2) == 0, Disallow: r.Intn(4) == 0}
 			if c.prop == "c16" {
